@@ -266,9 +266,13 @@ reg(Spec(
          "stored polynomial of s (a factor contributes v*p where it has that "
          "interval and 0 elsewhere), result window == operand window; exact "
          "for Q, C16 bound with the absolute interpretation of the expression "
-         "for floating types. Non-trivial: the exact result is non-zero; "
+         "for floating types. Every expression object is also kept alive "
+         "together with its operand and applied again in a later case, after "
+         "the grids and splines of other cases have come and gone. "
+         "Non-trivial: the exact result is non-zero; "
          "distinct by (expression, operand, factors, scalars).",
     required=["apply", "apply:order0", "apply:order3",
+              "apply:long-lived-operator",
               "factor-window:ends-inside-operand",
               "factor-window:starts-inside-operand", "factor-window:empty",
               "factor-window:point-like"],
